@@ -1,28 +1,57 @@
 /-
-Tactic support for the CPU proofs: literal evaluation of `Py.lnot`, the `pyarith` simp set,
-and the closing tactic `pyomega`.
+Tactic support for the CPU proofs.
+  `pyconst`  configuration constants + evaluation of closed `Py.land/lor/lxor/lnot` terms
+  `flagalg`  status-register idioms → `Spec.setFlag` / `Spec.flag` chains (canonical order)
+  `pyarith`  masked data arithmetic → linear arithmetic with `/ % min max` by literals
 -/
-import Py65.Proofs.LandLits
+import Py65.Proofs.FlagLits
 import Py65.Machine
 import Mathlib.Tactic.SplitIfs
 
 namespace Py
 open Lean Meta Simp
 
-/-- `Py.lnot <literal>` ↦ the literal `-n-1` (definitional). -/
-dsimproc [pyarith] reduceLnot (Py.lnot _) := fun e => do
+/-- `Py.lnot <literal>` ↦ literal (definitional). -/
+dsimproc [pyarith, pyconst] reduceLnot (Py.lnot _) := fun e => do
   let_expr Py.lnot a := e | return .continue
   let some v ← Int.fromExpr? a | return .continue
   return .done (toExpr (-v - 1))
 
-/-- `x & ~y = x - (x & y)` (TRB; also every `p &= ~FLAG` whose flag is not a literal). -/
+/-- `Py.lor <literal> <literal>` ↦ literal (definitional; kernel evaluates `Nat.lor`). -/
+dsimproc [pyarith, pyconst] reduceLor (Py.lor _ _) := fun e => do
+  let_expr Py.lor a b := e | return .continue
+  let some x ← Int.fromExpr? a | return .continue
+  let some y ← Int.fromExpr? b | return .continue
+  return .done (toExpr (Py.lor x y))
+
+dsimproc [pyarith, pyconst] reduceLand (Py.land _ _) := fun e => do
+  let_expr Py.land a b := e | return .continue
+  let some x ← Int.fromExpr? a | return .continue
+  let some y ← Int.fromExpr? b | return .continue
+  return .done (toExpr (Py.land x y))
+
+dsimproc [pyarith, pyconst] reduceLxor (Py.lxor _ _) := fun e => do
+  let_expr Py.lxor a b := e | return .continue
+  let some x ← Int.fromExpr? a | return .continue
+  let some y ← Int.fromExpr? b | return .continue
+  return .done (toExpr (Py.lxor x y))
+
+/-- `x & ~y = x - (x & y)` (TRB). -/
 @[pyarith] theorem land_lnot_right' (x y : Int) : land x (lnot y) = x - land x y := by
   have := land_add_land_lnot x y; omega
 
-/-- `x | (v & M)` — the idiom `p |= value & FLAG`. -/
-@[pyarith ↓] theorem lor_land (x v M : Int) : lor x (land v M) = x + land v M - land (land x v) M := by
-  rw [lor_eq, land_assoc]
+/-- rotate-left data idiom `(t << 1) | 1` (must not be read as a flag update) -/
+@[flagalg ↓, pyarith ↓] theorem lor_shl_one (x : Int) : lor (shl x 1) 1 = x * 2 + 1 := by
+  rw [lor_lit_1, land_lit_1]; simp [shl]
 
+/-- rotate-right data idioms `(t >> 1) | NEGATIVE` -/
+@[flagalg ↓, pyarith ↓] theorem lor_shr_128 (x : Int) : lor (shr x 1) 128 = x / 2 + 128 - x / 2 / 128 % 2 * 128 := by
+  rw [lor_lit_128, land_lit_128]; simp [shr]
+@[flagalg ↓, pyarith ↓] theorem lor_shr_32768 (x : Int) :
+    lor (shr x 1) 32768 = x / 2 + 32768 - x / 2 / 32768 % 2 * 32768 := by
+  rw [lor_lit_32768, land_lit_32768]; simp [shr]
+
+attribute [pyarith ↓] lor_land
 attribute [pyarith] land_neg shl shr
 
 end Py
